@@ -28,3 +28,8 @@ check('C11',
   'ALL strings of length <=5 (thorough 6) over {/, space, ., a, b, TAB} are registered, each on its own router, and ALL of them are looked up against it in both StrictLastSlash modes (209 M / 6.3 G lookups): a request reaches the route iff both normalise to the same string under an independent 10-line normaliser, Route.Path() is that normal form and nothing panics. The same is done for group prefix x path x request (length <=3) and for raw/escaped paths of <=4 tokens under both UseEncodedPath settings.',
   'Alphabet of 6 characters, bounded length; net/url EscapedPath is taken as the definition of the escaped path.',
   'DESIGN.md 5 C11')
+check('C13',
+  'bounded exhaustive enumeration: invalid definitions built by construction must be rejected; every accepted definition of the complete token product is probed for lookup totality',
+  'Rejection: all 22.8 k method-name strings (<=4 letters over a 12-symbol alphabet plus variants of the 9 names), handler counts 0..70 through every registration path, nil handlers, late options, and ~600 structured patterns (capturing group at every position of a variable regex, optional part not at the end, uncompilable regex) - each invalid by construction - must panic in the registration call. Totality: ALL pattern strings of <=5 (thorough 6) tokens over 15 tokens (0.8 M / 12 M) are offered to registration and every accepted one is matched against short and special path strings and method strings through Match and ServeHTTP, with all options off and all on; none may panic.',
+  'Garbage patterns are never classified (only lookup totality is required of them). Over-rejection (a valid control refused) is not a violation of the statement and is only counted.',
+  'DESIGN.md 5 C13')
